@@ -45,6 +45,7 @@ type Violation struct {
 }
 
 type Exec struct {
+	invokeSig *types.Signature // signature of the interface method a model method is answering
 	panicAt string // call stack of the last modelled range-check panic
 	prog    *ssa.Program
 	tt      *TermTable
@@ -629,6 +630,7 @@ func (e *Exec) invoke(recv IfaceVal, m *types.Func, args []Value) Value {
 		key := mv.Kind + "." + m.Name()
 		if in, ok := modelMethods[key]; ok {
 			e.st.Stubs[key]++
+			e.invokeSig = m.Type().(*types.Signature)
 			return in(e, mv, args)
 		}
 		panic(abort{"unmodelled model method " + key})
